@@ -321,21 +321,26 @@ Proof.
 Qed.
 
 Lemma schedule_k_Q k : forall st st' r, schedule_k o k st = (st', r) -> Q st ->
-  Q st' /\ (forall e, r = SErr e -> Dok (s_trace st') -> False).
+  Q st' /\ (forall e, r = SErr e -> Dok (s_trace st') -> exists j, e = ECkptMissing j).
 Proof.
   induction k as [|k IH]; intros st st' r H HQ; simpl in H.
   - injection H as <- <-. split; [exact HQ|discriminate].
-  - destruct (schedule_new_task o st) as [st1 r1] eqn:E1.
+  - destruct (ckpt_missing o st) as [j|] eqn:Ec.
+    { injection H as <- <-. split.
+      - apply (Q_quiet st _ [ESSuggest (s_ntrials st) (o_sug o (s_ns st))]); auto. intros x e [<-|[]].
+        unfold ckpt_missing in Ec. destruct (o_sug o (s_ns st)) as [|cfg [kk|]|id cfg]; try discriminate. reflexivity.
+      - intros e He _. injection He as <-. exists j. reflexivity. }
+    destruct (schedule_new_task o st) as [st1 r1] eqn:E1.
     pose proof (schedule_new_task_Q _ _ _ E1 HQ) as HQ1.
     destruct r1.
     + exact (IH _ _ _ H HQ1).
     + injection H as <- <-. split; [exact HQ1|discriminate].
-    + injection H as <- <-. split; [exact HQ1|]. intros e0 He. injection He as <-.
-      eapply schedule_new_task_D; eauto.
+    + injection H as <- <-. split; [exact HQ1|]. intros e0 He HD. injection He as <-.
+      exfalso. eapply schedule_new_task_D; eauto.
 Qed.
 
 Lemma schedule_new_tasks_Q st st' r : schedule_new_tasks prm o st = (st', r) -> Q st ->
-  Q st' /\ (forall e, r = SErr e -> Dok (s_trace st') -> False).
+  Q st' /\ (forall e, r = SErr e -> Dok (s_trace st') -> exists j, e = ECkptMissing j).
 Proof.
   intros H HQ. apply schedule_new_tasks_cases in H. destruct H as (st1 & Hbl & Hc).
   assert (HQ1 : Q st1).
@@ -386,13 +391,77 @@ Proof.
     destruct r.
     + intros s3 c' Ei. split; [eapply iteration_end_budget; eauto|split; [eapply iteration_end_life; eauto|eapply iteration_end_Q; eauto]].
     + intros s3 c' Ei. split; [eapply iteration_end_budget; eauto|split; [eapply iteration_end_life; eauto|eapply iteration_end_Q; eauto]].
-    + intros HD _. eapply Herr; eauto.
+    + intros HD [t [Hx|Hx]]; injection Hx as ->; destruct (Herr _ eq_refl HD) as [j Hj]; discriminate.
   - unfold stop_condition in E0. injection E0 as <- _. split; [|split].
     + unfold binv. simpl. repeat split; [constructor|lia|intros t Ht; lia].
     + unfold LInv, LI. simpl. repeat split; auto; try discriminate.
       * intros t [Hx|Hx]; discriminate.
       * intros t [].
     + intros t Ht. simpl in Ht. discriminate.
+Qed.
+
+(* every exception that can leave the try block: the assertion / missing-metric errors of a poll, a resume the
+   backend refuses, or a start that failed half-way (copy_checkpoint raised) - and then nothing was registered *)
+Definition exit_error_kind (st : state) (e : error) : Prop :=
+  poll_error e \/ resume_error e \/ failed_start_shape st e.
+Theorem run_loop_error_kinds fuel st e :
+  run_loop prm o fuel = (st, LExit (Some e)) -> exit_error_kind st e.
+Proof.
+  unfold run_loop. destruct (stop_condition prm o (emit ECbTuningStart init_state)) as [st0 c0] eqn:E0. intro H.
+  revert e H. 
+  assert (G : forall x, loop prm o fuel st0 c0 false = (st, x) -> forall e, x = LExit (Some e) -> exit_error_kind st e);
+    [|intros e H; exact (G _ H e eq_refl)].
+  intros x H.
+  eapply (loop_rule2 prm o
+    (fun s _ _ => binv prm s /\ LInv s /\ Q s) (fun s _ _ => binv prm s /\ LInv s /\ Q s)
+    (fun s x => forall e, x = LExit (Some e) -> exit_error_kind s e)); [| | | | | |exact H|].
+  - intros s c ex _ e Hx; discriminate.
+  - intros s c ex _ _ e Hx; discriminate.
+  - intros s c ex s' err (A & B & C) _ Ep.
+    pose proof (poll_Q _ _ _ Ep A B C) as [HQ' Herr].
+    pose proof (poll_life _ _ _ _ _ Ep A B) as [_ HI].
+    apply poll_budget in Ep; [|exact A]. destruct Ep as (Hb1 & _).
+    destruct err as [e|]; [|auto].
+    intros e0 Hx. injection Hx as <-. left. apply Herr. reflexivity.
+  - intros s c ex _ _ _ e Hx; discriminate.
+  - intros s c ex s' c' (A & B & C) _ _ Ei. split; [|split].
+    + eapply iteration_end_budget; [exact Ei|apply binv_emit; exact A].
+    + eapply iteration_end_life; [exact Ei|]. apply LInv_emit_quiet; [reflexivity|exact B].
+    + eapply iteration_end_Q; [exact Ei|]. apply (Q_quiet s _ [ECbSleep]); auto. intros y e [<-|[]]. reflexivity.
+  - intros s c ex s2 r (A & B & C) _ Es.
+    pose proof (schedule_new_tasks_Q _ _ _ Es C) as [HQ2 _].
+    pose proof (schedule_new_tasks_life _ _ _ _ _ Es B) as HL2.
+    pose proof (schedule_new_tasks_budget _ _ _ _ _ Es A) as (Hb2 & _).
+    destruct r.
+    + intros s3 c' Ei. split; [eapply iteration_end_budget; eauto|split; [eapply iteration_end_life; eauto|eapply iteration_end_Q; eauto]].
+    + intros s3 c' Ei. split; [eapply iteration_end_budget; eauto|split; [eapply iteration_end_life; eauto|eapply iteration_end_Q; eauto]].
+    + intros e0 Hx. injection Hx as <-. right. eapply schedule_new_tasks_fault; eauto.
+  - unfold stop_condition in E0. injection E0 as <- _. split; [|split].
+    + unfold binv. simpl. repeat split; [constructor|lia|intros t Ht; lia].
+    + unfold LInv, LI. simpl. repeat split; auto; try discriminate.
+      * intros t [Hx|Hx]; discriminate.
+      * intros t [].
+    + intros t Ht. simpl in Ht. discriminate.
+Qed.
+
+(* the finally block after ANY exit of the try block: whatever was raised (a start that failed half-way included),
+   stop_all leaves no trial InProgress, and the exception that escapes run() is the one that left the try block,
+   or the failure-limit error raised after stop_all *)
+Theorem run_finally_any_exit fuel st out :
+  run prm o fuel = (st, out) -> out <> OutOfFuel ->
+  exists st0 err, run_loop prm o fuel = (st0, LExit err) /\
+    (forall t, t < s_ntrials st -> b_w (s_bt st t) <> InProgress) /\
+    s_ntrials st = s_ntrials st0 /\
+    (match err with Some e => exit_error_kind st0 e | None => True end) /\
+    (out = match err with Some e => Raised e | None => Normal end \/
+     exists t, out = Raised (EFailureLimit t) /\ too_many_failures prm st = true /\ In (t, Failed) (s_doneall st)).
+Proof.
+  intros H Hne. destruct (run_spec _ _ _ _ _ H Hne) as (st0 & err & Hl & Hf).
+  exists st0, err. pose proof (finalize_spec _ _ _ _ _ _ Hf) as (A & B & _ & _ & _ & _ & _ & D1 & D2).
+  split; [exact Hl|]. split; [intros t Ht; apply A; lia|]. split; [exact B|]. split.
+  - destruct err as [e|]; [|exact I]. eapply run_loop_error_kinds; eauto.
+  - destruct (too_many_failures prm st) eqn:Et; [|left; auto].
+    destruct (run_failure_limit _ _ _ _ _ H Hne Et) as (t & Ht1 & Ht2). right. exists t. auto.
 Qed.
 
 (* the same for run() as a whole *)
